@@ -2,6 +2,8 @@ package checks
 
 import (
 	"fmt"
+	"os"
+	"strconv"
 	"strings"
 	"time"
 
@@ -515,6 +517,28 @@ func c05TerminateRaceBody(obs *c05TakeoverObs, ending int) func() {
 }
 
 func schedScenario(c *explore.Ctx, name string, bound int, obsProblems func() [][3]string, outcome func() string, body func(), extra map[string]any) {
+	if dn := os.Getenv("VERIF_DEBUG_SCENARIO"); dn != "" {
+		// development aid: VERIF_DEBUG_SCENARIO=<name> VERIF_DEBUG_CHOICES=1,0,2 prints the step log of one schedule
+		if dn != name {
+			return
+		}
+		var ch []int
+		for _, f := range strings.Split(os.Getenv("VERIF_DEBUG_CHOICES"), ",") {
+			if n, err := strconv.Atoi(strings.TrimSpace(f)); err == nil {
+				ch = append(ch, n)
+			}
+		}
+		r, div := explore.RunPrefix(ch, nil, true, body)
+		l := r.Log
+		if len(l) > 400 {
+			l = l[len(l)-400:]
+		}
+		for _, x := range l {
+			fmt.Println(x)
+		}
+		fmt.Println("divergence:", div, "problems:", obsProblems(), "steplimit:", r.StepLimit, "deadlock:", r.Deadlock, r.Parked)
+		return
+	}
 	explore.DFS(c, explore.DFSConfig{Name: name, Bound: bound, Body: body, ShardDepth: 1, Check: func(r *vsched.Result, choices []int) {
 		cas := func() any {
 			m := map[string]any{"scenario": name, "deviation_bound": bound, "choices": choices}
@@ -531,8 +555,12 @@ func schedScenario(c *explore.Ctx, name string, bound int, obsProblems func() []
 			c.Violate("no-deadlock", name+":harness-blocked@"+r.ParkedMain, cas(), "scenario completes", "blocked; parked: "+strings.Join(r.Parked, ","))
 			return
 		}
+		if sp := gmqttSpinner(r); r.StepLimit && sp != "" {
+			c.Violate("no-livelock", name+":busy-loop:"+sp, cas(), "every goroutine blocks or exits", "goroutine "+r.Spinner+" keeps running alone without ever blocking (>100000 consecutive scheduling points)")
+			return
+		}
 		if r.StepLimit {
-			c.Fatal("%s: step limit", name)
+			c.Fatal("%s: step limit (choices %v; parked %v)", name, choices, r.Parked)
 			return
 		}
 		for _, p := range obsProblems() {
